@@ -213,3 +213,10 @@ Proof. reflexivity. Qed.
 Lemma link_watch : C15_Gen.calls_watch = ["c.watchStream"; "return"].
 Proof. reflexivity. Qed.
 Local Close Scope string_scope.
+
+(* ---------------------------------------------------------------- round 8 *)
+Local Open Scope string_scope.
+(* Model.sw_run: read the state once, then for ever: wait for a change of currentState, updateState *)
+Lemma link_swatch : C15_Gen.calls_swatch = ["conn.GetState"; "context.Background"; "conn.WaitForStateChange"; "w.updateState"].
+Proof. reflexivity. Qed.
+Local Close Scope string_scope.
